@@ -2,41 +2,74 @@ from props import *  # noqa: F401,F403
 
 # ------------------------------------------------------------------------------------------------
 rc_bin("c07_rc", ["harness/c07_histogram.cc"], lib=True)
+rc_bin("c07_rc_abi2", ["harness/c07_histogram.cc"], lib=True, abi=2)
 PROPS["C07"] = dict(
     level_text="Reference-model property tests (rapidcheck, ASan/UBSan) at two levels: the Long/Double histogram "
-               "aggregation classes directly (Aggregate, Merge in generated binary-tree orders, Diff, ToPoint, clones) "
-               "and end to end through MeterProvider/Meter histogram instruments with default and view-configured "
-               "boundaries read by delta and cumulative readers over several collection cycles. Every explored case "
-               "agreed with a linear-scan reference written from the statement. Exploration is the right level: the "
+               "aggregation classes directly (Aggregate, Merge in generated binary-tree orders, Diff, ToPoint, clones "
+               "made from points and merged back) and end to end through MeterProvider/Meter histogram instruments "
+               "with default boundaries, one view or two views with different boundary lists on one instrument, "
+               "several handles per instrument, read by delta and cumulative readers over several collection cycles "
+               "(ABI v1 build and, for the context-less Record overloads, ABI v2 build). Every explored case agreed "
+               "with a linear-scan reference written from the statement. Exploration is the right level: the "
                "domain (all boundary lists x all value multisets x all splits over cycles and readers) is unbounded, "
                "the oracle is cheap and exact, and the defects of this kind live at boundary-equal values, zeros, "
                "sentinels and merge paths that generated search reaches directly.",
     technique="differential reference model (linear-scan bucketing, exact min/max/count, exact-or-toleranced sum) + "
-              "merge homomorphism (metamorphic) + per-reader conservation over collection cycles; rapidcheck",
+              "merge homomorphism (metamorphic) + per-reader, per-stream conservation over collection cycles; rapidcheck",
     rule="Cases are choice streams decoded into (boundaries, min/max flag, values split into chunks, merge tree) "
-         "or into (instruments with views, readers, Record/Collect history).",
+         "or into (instruments with 0..2 views each, readers, Record/Collect/new-handle history).",
+    generators="boundary lists: the default list, empty, single, ladders (2..10 and 26..200 entries), mixed lists of "
+               "2..24 entries drawn from small ints, default boundaries, dyadic and decimal fractions, huge (1e300, "
+               "DBL_MAX, 2^53, 2^63), subnormal, negative, next-to-integer, random bit patterns, -0.0 and +inf; "
+               "values: 0, equal to / next above / next below a boundary (of ANY stream of the instrument), small "
+               "ints, dyadic, subnormal, huge, non-dyadic, random bits, -0.0, mid-bucket, above-top; int64: boundary "
+               "floor/+1/-1, 2^53+-1, 2^62, INT64_MAX, random 63-bit; repeats up to 40x; end to end: 1..3 "
+               "instruments (long/double), per instrument no view / one view (kHistogram or kDefault type, named or "
+               "not) / two views (first named or not, second named; boundary lists and min/max flags independent, "
+               "12% equal lists), 1..3 readers of either temporality, 1..60 operations (Record through any live "
+               "handle with one of five attribute shapes, Collect by one reader, create or replace a handle), then "
+               "a final Collect by every reader.",
+    oracle="check_point: boundaries echo the configured list; bucket vector == linear-scan reference (int64 "
+           "compared with the double boundary exactly); sum of bucket counts == count == number of values; sum "
+           "exact or 1e-9 relative; min/max exact when carried, and carried when enabled. Applied to: every chunk, "
+           "every Merge result, the merge of all chunks vs the single histogram, clones (copied/moved point) after "
+           "one more value and merged with recorded histograms / each other / an empty clone; end to end to every "
+           "reported point of every stream (delta: the interval's values; cumulative: everything so far), to the "
+           "sum of all delta points and the last cumulative point at the end; a stream with values recorded since "
+           "the reader's last Collect must be reported, no metric or attribute set may appear twice or unrecorded.",
     assumptions=[
         "values are non-negative and finite (Histogram::Record documents 'MUST be non-negative'); NaN/inf are not generated",
         "the sum of one series stays representable: <= INT64_MAX for integer instruments (signed overflow of the "
-        "int64 sum is outside the domain), finite for floating instruments; unsigned values above INT64_MAX are not "
-        "generated (the SDK stores int64)",
+        "int64 sum is outside the domain), finite for floating instruments",
         "sum is compared exactly when every value is a multiple of 2^-10 below 2^30 (every association order is "
         "then exact) and within 1e-9 relative otherwise, because merged intervals add in a different order",
-        "an int64 value above 2^53 that is not representable as a double is never placed so that its rounded-down "
-        "double image equals a boundary (the SDK's bucket search compares in double; that one-ulp shape is not asserted)",
+        "finding C07-int64-boundary-rounding (an int64 value above 2^53 whose double image rounds DOWN onto a boundary) is "
+        "fixed in /repo (4238e2f); the shape is generated and the reference places it by exact comparison",
+        "OPEN known finding C07-u64-above-int64-max: Histogram<uint64_t>::Record with a value above INT64_MAX is re-shaped "
+        "into 0 and counted in excluded_for_known_findings while the finding is listed as open; were it not excluded the "
+        "oracle would accept exactly one outcome: the value is not recorded (HistogramPointData holds int64 sum/min/max and "
+        "cannot contain it; DoubleHistogram::Record treats negative values the same way). A repair that saturates instead "
+        "of dropping would need this oracle revisited.",
         "min/max are asserted when the point carries record_min_max_ and count > 0; with min/max enabled by the "
-        "configuration the point must carry them",
+        "configuration the point must carry them (also on a fresh, empty aggregation: configuration echo)",
         "Diff is asserted for bucket counts and count only (documented as next - current); the property text does "
         "not cover Diff's sum (HistogramDiff never sets it) - reported as an observation, not a violation",
         "a cumulative reader may or may not re-send an unchanged series in a cycle without new data; a delta reader "
         "may omit or send an all-zero point for an empty interval (both accepted)",
-        "one instrument handle per name, one view per instrument and < 2000 attribute sets, so the C06/C08 "
-        "findings F8/F9/F10 are not in play",
+        "two views on one instrument have different output names (at most one keeps the instrument name); every "
+        "handle of an instrument is created with identical name, description and unit; one meter; < 2000 attribute "
+        "sets per stream (the cardinality limit and its overflow series belong to C08)",
+        "-0.0 and 0.0 are the same boundary (a list holds at most one of them); an infinite top boundary is a "
+        "boundary like any other (v <= +inf holds for every value)",
         SC_NOTE,
     ],
     runs=[
         run("agg-double", "c07_rc", "agg_double", "rc", dict(procs=4, cases=30000), dict(procs=5, cases=500000)),
         run("agg-long", "c07_rc", "agg_long", "rc", dict(procs=4, cases=30000), dict(procs=5, cases=500000)),
-        run("meter-cycles", "c07_rc", "meter_cycles", "rc", dict(procs=8, cases=8000), dict(procs=6, cases=200000)),
+        # fixed witness of the open known finding C07-u64-above-int64-max: replay only (known/C07/), no search budget
+        run("u64-wrap-witness", "c07_rc", "u64_wrap_witness", "rc", None, None),
+        run("meter-cycles", "c07_rc", "meter_cycles", "rc", dict(procs=6, cases=10000), dict(procs=6, cases=200000)),
+        run("meter-cycles-abi2", "c07_rc_abi2", "meter_cycles_abi2", "rc", dict(procs=2, cases=6000),
+            dict(procs=2, cases=100000)),
     ],
 )
